@@ -190,6 +190,14 @@ func gridTypes(o *dops, tier string) []gtype {
 		if st != "ok" || t0 == nil {
 			continue
 		}
+		if o.name == "postgres" && s.ToSpec != nil { // the interval family: the spec name is the interval field
+			f := strings.ToUpper(strings.ReplaceAll(s.T, "_", " "))
+			if f == "INTERVAL" {
+				f = ""
+			}
+			six := 6
+			t0 = &postgres.IntervalType{T: "interval", F: f, Precision: &six}
+		}
 		if s.RType != nil { // specs selected by RType (mysql enum/set): build the RType value itself
 			t0 = reflect.New(s.RType).Interface().(schema.Type)
 			t0 = setT(t0, s.T)
@@ -200,12 +208,13 @@ func gridTypes(o *dops, tier string) []gtype {
 		for _, a := range s.Attributes {
 			decl[inflect.Camelize(a.Name)] = true
 		}
-		if s.Name == "interval" || strings.Contains(s.T, "to") || o.name == "postgres" && len(s.Attributes) == 0 && s.ToSpec != nil {
-			decl["F"] = true
-		}
 		for _, v := range variants(t0, tier, decl) {
 			if vs := reflect.ValueOf(v).Elem().FieldByName("Values"); vs.IsValid() && vs.Len() == 0 {
 				add(v, "specx") // an enum/set without values is not a type
+				continue
+			}
+			if !validParams(o, v) {
+				add(v, "specx")
 				continue
 			}
 			add(v, "spec")
@@ -227,4 +236,21 @@ func gridTypes(o *dops, tier string) []gtype {
 		}
 	}
 	return g
+}
+
+// validParams rejects parameter values the database itself rejects (so they are
+// not types of the dialect): PostgreSQL time/interval precision > 6, bit(0).
+func validParams(o *dops, t schema.Type) bool {
+	if o.name != "postgres" {
+		return true
+	}
+	switch t := t.(type) {
+	case *schema.TimeType:
+		return t.Precision == nil || *t.Precision <= 6
+	case *postgres.IntervalType:
+		return t.Precision == nil || *t.Precision <= 6
+	case *postgres.BitType:
+		return !(strings.ToLower(t.T) == "bit" && t.Len == 0)
+	}
+	return true
 }
